@@ -217,7 +217,13 @@ def env_part(ctx, n_hist, hist_len):
         for hi in range(n_hist):
             s = basic.new_session()
             tag = 'PCBV%d_' % rng.randrange(10**6)
-            names = [tag + n for n in ('a', 'Path', 'x1', 'LONG_NAME_WITH_UNDERSCORES', 'q')]
+            # names over the whole alphabet (both ends a/z included), digits and the ASCII neighbours of the
+            # letter ranges (@ [ ` {), so that case folding is exercised on every letter and on non-letters
+            alphabet = 'abcdefghijklmnopqrstuvwxyz'
+            names = [tag + 'az', tag + 'Path_z', tag + 'x1@[`{~!#$%&()-.^_']
+            for _ in range(3):
+                names.append(tag + ''.join(rng.choice(alphabet + '0123456789_') for _ in range(rng.randrange(1, 9))))
+            names.append(tag + ''.join(rng.sample(alphabet, 26)))
             ref = {}
             ops, outs = [], []
             with s:
